@@ -659,13 +659,15 @@ class WithinQualifier(_ExpressionQualifier):
     """Pattern 'Within' Qualifier
 
     Args:
-        number_of_seconds (int): seconds value for 'within' qualifier
+        number_of_seconds (int OR float): seconds value for 'within' qualifier
     """
     def __init__(self, number_of_seconds):
-        if isinstance(number_of_seconds, IntegerConstant):
+        if isinstance(number_of_seconds, (IntegerConstant, FloatConstant)):
             self.number_of_seconds = number_of_seconds
         elif isinstance(number_of_seconds, int):
             self.number_of_seconds = IntegerConstant(number_of_seconds)
+        elif isinstance(number_of_seconds, float):
+            self.number_of_seconds = FloatConstant(number_of_seconds)
         else:
             raise ValueError("%s is not a valid argument for a Within Qualifier" % number_of_seconds)
 
